@@ -271,12 +271,14 @@ def main():
 Definition pid_of (n : string) : option Z := pd_get n amp_names.
 """
     terms, flat_states = [], []
-    coq_files = "[" + "; ".join(ampgen_gen.coq_optfile(o) for o in pool) + "]"
+    # the model reads the same texts as the implementation (coq/Amp/Text.v), not structures prepared in Python
+    pre += "".join(f"Definition pool_file_{k} : list oline := Eval vm_compute in match parse_text {vlib.cstr(t)} with Some f => f | None => [] end.\n" for k, t in enumerate(pool_txt))
+    coq_files = "[" + "; ".join(f"pool_file_{k}" for k in range(len(pool_txt))) + "]"
     for h, run in zip(hists, runs):
         ops = "[" + "; ".join({"read": "ORead", "readtext": "ORead", "cpp": "OCpp", "py": "OPy"}[op[0]] + " " + ({"AmplitudeChain": "CBase", "GooFitChain": "CCpp", "GooFitPyChain": "CPy", None: ""}[op[1]]) + f" {op[2]}%nat" for op in h["ops"]) + "]"
         terms.append(f"vhistory pid_of 40 {coq_files} {ops}")
         flat_states.append([st for _, st in run])
-    model = vlib.run_model("C20", ["Lib.PyDict", "Gen.GenAmp", "Amp.Syntax", "Amp.Read", "Amp.Session"], "fun v : val => v", terms, shard=20, preamble=pre)
+    model = vlib.run_model("C20", ["Lib.PyDict", "Gen.GenAmp", "Amp.Syntax", "Amp.Text", "Amp.Read", "Amp.Session"], "fun v : val => v", terms, shard=20, preamble=pre)
     diffs = [i for i, (a, b) in enumerate(zip(flat_states, model)) if a != b]
     ck.cov["evaluations"] += len(hists)
     ck.cov["traces_validated_against_impl"] += len(hists) - len(diffs)
